@@ -47,7 +47,9 @@ VARIABLES hunt,      \* Targets -> IP4 \cup {NoIP}            Handler.huntList (
           refClosed, \* property level: Close was called
           refOffer,  \* property level: outstanding offers according to the call log
           rl,        \* property level: per loop id [mac, alive, snap, fresh]
-          poisoned,  \* property level: Targets -> BOOLEAN, last loop frame received was a forged one
+          poisoned,  \* property level: Targets -> {"ok", "owed", "forged"}: what the wire has told the target last --
+                     \*   "forged": its last frame from us binds the router's IP to our MAC; "owed": it was un-hunted and has
+                     \*   not yet received a restoring packet; "ok" otherwise
           pre        \* property level: facts about the state before the last step
 
 mech == <<hunt, loops, closed, offer, hostOf, pend, captured, out, ev>>
@@ -214,33 +216,6 @@ RecvM(op, es, sm, si, ti) ==
 -----------------------------------------------------------------------------
 (* property level: reference variables, updated from the call log and the observable events only *)
 
-NoPre == [hunted |-> FALSE, valid |-> FALSE, snap |-> {}, snapClosed |-> TRUE, mac |-> NilMAC, zombie |-> FALSE]
-
-StartHuntR(m, ip, n) ==          \* n: number of loop instances that announce themselves after the call
-  LET valid == m # NilMAC /\ ip \in IP4 IN
-  /\ pre' = [NoPre EXCEPT !.hunted = m \in refHunt, !.valid = valid, !.mac = m]
-  /\ refHunt' = IF valid THEN refHunt \cup {m} ELSE refHunt
-  /\ UNCHANGED <<refClosed, refOffer, poisoned>>
-  /\ rl' = rl \o [i \in 1..n |-> [mac |-> m, alive |-> TRUE, snap |-> {}, snapClosed |-> TRUE, fresh |-> FALSE, cur |-> TRUE]]
-
-StopHuntR(m) ==
-  /\ pre' = [NoPre EXCEPT !.hunted = m \in refHunt, !.mac = m]
-  /\ refHunt' = refHunt \ {m}
-  \* the loops spawned for the hunt that ends here no longer count as loops of the current hunt of m
-  /\ rl' = [l \in 1..Len(rl) |-> IF rl[l].mac = m THEN [rl[l] EXCEPT !.cur = FALSE] ELSE rl[l]]
-  /\ UNCHANGED <<refClosed, refOffer, poisoned>>
-
-CloseR == /\ refClosed' = TRUE /\ pre' = NoPre /\ UNCHANGED <<refHunt, refOffer, rl, poisoned>>
-
-OfferR(m, ip) == /\ refOffer' = [refOffer EXCEPT ![m] = ip] /\ pre' = NoPre
-                 /\ UNCHANGED <<refHunt, refClosed, rl, poisoned>>
-
-\* a membership check of loop l: from now on one forged frame to a MAC hunted at this instant is allowed
-LoopCheckR(l) ==
-  /\ rl' = [rl EXCEPT ![l].snap = refHunt, ![l].snapClosed = refClosed, ![l].fresh = TRUE]
-  /\ pre' = [NoPre EXCEPT !.zombie = ~rl[l].alive, !.mac = rl[l].mac]
-  /\ UNCHANGED <<refHunt, refClosed, refOffer, poisoned>>
-
 FrameKind(f) ==
   IF f.op = 2 /\ f.sm = Own /\ f.ti = Bcast4 THEN "reject"
   ELSE IF f.si = RouterIP /\ f.sm = Own THEN "forged"
@@ -251,10 +226,41 @@ RECURSIVE Poison(_, _)
 Poison(p, fs) ==
   IF fs = <<>> THEN p
   ELSE LET f == Head(fs)
-           p1 == IF f.ed \in Targets /\ FrameKind(f) = "forged" THEN [p EXCEPT ![f.ed] = TRUE]
-                 ELSE IF f.ed \in Targets /\ FrameKind(f) = "restore" THEN [p EXCEPT ![f.ed] = FALSE]
+           p1 == IF f.ed \in Targets /\ FrameKind(f) = "forged" THEN [p EXCEPT ![f.ed] = "forged"]
+                 ELSE IF f.ed \in Targets /\ FrameKind(f) = "restore" THEN [p EXCEPT ![f.ed] = "ok"]
                  ELSE p
        IN Poison(p1, Tail(fs))
+
+NoPre == [hunted |-> FALSE, valid |-> FALSE, snap |-> {}, snapClosed |-> TRUE, mac |-> NilMAC, zombie |-> FALSE]
+
+StartHuntR(m, ip, n) ==          \* n: number of loop instances that announce themselves after the call
+  LET valid == m # NilMAC /\ ip \in IP4 IN
+  /\ pre' = [NoPre EXCEPT !.hunted = m \in refHunt, !.valid = valid, !.mac = m]
+  /\ refHunt' = IF valid THEN refHunt \cup {m} ELSE refHunt
+  /\ UNCHANGED <<refClosed, refOffer>>
+  \* "unless it is hunted again": a new hunt cancels a restore that is still owed
+  /\ poisoned' = Poison(IF valid /\ m \in Targets /\ poisoned[m] = "owed" THEN [poisoned EXCEPT ![m] = "ok"] ELSE poisoned, out')
+  /\ rl' = rl \o [i \in 1..n |-> [mac |-> m, alive |-> TRUE, snap |-> {}, snapClosed |-> TRUE, fresh |-> FALSE, cur |-> TRUE]]
+
+StopHuntR(m) ==
+  /\ pre' = [NoPre EXCEPT !.hunted = m \in refHunt, !.mac = m]
+  /\ refHunt' = refHunt \ {m}
+  \* the loops spawned for the hunt that ends here no longer count as loops of the current hunt of m
+  /\ rl' = [l \in 1..Len(rl) |-> IF rl[l].mac = m THEN [rl[l] EXCEPT !.cur = FALSE] ELSE rl[l]]
+  /\ UNCHANGED <<refClosed, refOffer>>
+  \* from now on the target is owed a restoring packet (it may come with this very call or from the loop)
+  /\ poisoned' = Poison(IF m \in refHunt /\ ~refClosed /\ poisoned[m] = "ok" THEN [poisoned EXCEPT ![m] = "owed"] ELSE poisoned, out')
+
+CloseR == /\ refClosed' = TRUE /\ pre' = NoPre /\ UNCHANGED <<refHunt, refOffer, rl>> /\ poisoned' = Poison(poisoned, out')
+
+OfferR(m, ip) == /\ refOffer' = [refOffer EXCEPT ![m] = ip] /\ pre' = NoPre
+                 /\ UNCHANGED <<refHunt, refClosed, rl>> /\ poisoned' = Poison(poisoned, out')
+
+\* a membership check of loop l: from now on one forged frame to a MAC hunted at this instant is allowed
+LoopCheckR(l) ==
+  /\ rl' = [rl EXCEPT ![l].snap = refHunt, ![l].snapClosed = refClosed, ![l].fresh = TRUE]
+  /\ pre' = [NoPre EXCEPT !.zombie = ~rl[l].alive, !.mac = rl[l].mac]
+  /\ UNCHANGED <<refHunt, refClosed, refOffer>> /\ poisoned' = Poison(poisoned, out')
 
 LoopActR(l) ==
   /\ pre' = [NoPre EXCEPT !.snap = IF rl[l].fresh THEN rl[l].snap ELSE {}, !.snapClosed = ~rl[l].fresh \/ rl[l].snapClosed, !.mac = rl[l].mac]
@@ -262,7 +268,7 @@ LoopActR(l) ==
   /\ poisoned' = Poison(poisoned, out')
   /\ UNCHANGED <<refHunt, refClosed, refOffer>>
 
-IdleR == pre' = NoPre /\ UNCHANGED <<refHunt, refClosed, refOffer, rl, poisoned>>
+IdleR == pre' = NoPre /\ UNCHANGED <<refHunt, refClosed, refOffer, rl>> /\ poisoned' = Poison(poisoned, out')
 \* frames emitted while a packet is processed also count for the poisoned ledger
 RecvR == pre' = NoPre /\ poisoned' = Poison(poisoned, out') /\ UNCHANGED <<refHunt, refClosed, refOffer, rl>>
 
@@ -287,7 +293,7 @@ Init ==
   /\ hunt = [m \in Targets |-> NoIP] /\ loops = <<>> /\ closed = FALSE
   /\ offer = [m \in Targets |-> NoIP] /\ hostOf = [ip \in LanIPs |-> NilMAC] /\ pend = [m \in Targets |-> <<>>] /\ captured = {} /\ out = <<>> /\ ev = [kind |-> "init"]
   /\ refHunt = {} /\ refClosed = FALSE /\ refOffer = [m \in Targets |-> NoIP]
-  /\ rl = <<>> /\ poisoned = [m \in Targets |-> FALSE] /\ pre = NoPre
+  /\ rl = <<>> /\ poisoned = [m \in Targets |-> "ok"] /\ pre = NoPre
 
 -----------------------------------------------------------------------------
 (* property-level predicates: direct transcriptions of the statement of C13.               *)
@@ -320,16 +326,16 @@ P_RejectOnlyIf ==
 \*  restoring the router's real MAC, after which no further forged packet is sent to it unless it is
 \*  hunted again"
 \*  (a) a loop that continues after a check was checking a MAC of its own that was hunted then;
-\*  (b) a loop that ends while the handler is open restores its own target;
-\*  (c) once no loop can still legitimately send to m, m's last word from us is not a forgery.
+\*  (b), (c) on the wire, per target: once no loop can still legitimately send to an un-hunted m (its own loops have
+\*      ended, no other loop holds a fresh check that saw it hunted), m has received its restoring packet (b) and
+\*      that packet -- or a later one -- is the last word: no forged frame follows it (c).  WHO sends the restoring
+\*      packet (the ending loop, StopHunt itself) is not prescribed.
 P_UndoContinue == /\ ev.kind = "act" /\ ~ev.done => pre.mac \in pre.snap
                   /\ ev.kind = "check" => ~pre.zombie              \* a loop that ended stays ended
-P_UndoRestore  == ev.kind = "act" /\ ev.done /\ ~refClosed =>          \* (a Close before or during the cycle cancels the obligation)
-                     /\ \E f \in OfKind("restore") : f.ed = pre.mac
-                     /\ OfKind("forged") = {}
-P_UndoQuiet    == \A m \in Targets :
-                     (m \notin refHunt /\ ~refClosed /\ ~\E l \in 1..Len(rl) : rl[l].alive /\ (rl[l].mac = m \/ (rl[l].fresh /\ m \in rl[l].snap)))
-                        => ~poisoned[m]
+Settled(m) == m \notin refHunt /\ ~refClosed
+              /\ ~\E l \in 1..Len(rl) : rl[l].alive /\ (rl[l].mac = m \/ (rl[l].fresh /\ m \in rl[l].snap))
+P_UndoRestore  == \A m \in Targets : Settled(m) => poisoned[m] # "owed"
+P_UndoQuiet    == \A m \in Targets : Settled(m) => poisoned[m] # "forged"
 P_UndoWithinOneCycle == P_UndoContinue /\ P_UndoRestore /\ P_UndoQuiet
 
 \* "StartHunt is idempotent per MAC" (and rejects a nil MAC / non-IPv4 target): a second StartHunt
